@@ -167,8 +167,8 @@ def rule_partial_else(ctx):
                         and isinstance(node.test.args[0], ast.Name)):
                     continue
                 m = node.test.args[0].id
-                then_masked = [st for st in node.body if isinstance(st, ast.Assign) and f"~{m}" in norm(st.targets[0])]
-                else_all = [st for st in node.orelse if isinstance(st, ast.Assign) and m not in norm(st.targets[0])]
+                then_masked = [st for st in node.body if isinstance(st, ast.Assign) and "[~" in norm(st.targets[0])]
+                else_all = [st for st in node.orelse if isinstance(st, ast.Assign) and "~" not in norm(st.targets[0])]
                 if not then_masked or not else_all:
                     continue
                 # same target matrix column
@@ -176,7 +176,7 @@ def rule_partial_else(ctx):
                 if col(then_masked[0]) is None or col(then_masked[0]) != col(else_all[0]):
                     continue
                 n += 1
-                ok = last_attr(node.test) == "any"
+                ok = last_attr(node.test) == "any" and f"[~{m}]" in norm(then_masked[0].targets[0])
                 ctx.ob(R, f"{fi.module.name}::{fi.qualname}::{col(then_masked[0])}:{m}", ok,
                        f"partial assignment of {col(then_masked[0])} is chosen with any({m})" if ok else
                        f"`if {norm(node.test)}` chooses between the masked and the unmasked assignment of {col(then_masked[0])}: when only some "
